@@ -283,6 +283,9 @@ SEMSEG_PIPES = {
     "crop_wide": lambda s: [("KDSemsegRandomCrop", dict(size=(s, s + 2)))],
     "crop_tall": lambda s: [("KDSemsegRandomCrop", dict(size=(s + 2, s)))],
     "crop_ratio": lambda s: [("KDSemsegRandomCrop", dict(size=s, max_category_ratio=0.75))],
+    # the same on a label map with one dominant category: every window is rejected, the retries run out
+    "crop_ratio_dominant": lambda s: [("KDSemsegRandomCrop", dict(size=s, max_category_ratio=0.75))],
+    "crop_ratio_single": lambda s: [("KDSemsegRandomCrop", dict(size=s, max_category_ratio=0.5))],
     "flip": lambda s: [("KDSemsegRandomHorizontalFlip", dict())],
     "resize": lambda s: [("KDSemsegRandomResize", dict(base_size=(s, s + 1), ratio=(0.5, 2.0), interpolation="nearest"))],
     "pad": lambda s: [("KDSemsegPad", dict(size=s))],
@@ -306,9 +309,21 @@ def build_semseg(pipe, s):
     return out
 
 
+def dominant_label(pipe, r, c, w):
+    """label map of the *_dominant / *_single pipes as a function of the source pixel: category 0 everywhere except (for
+    'dominant') sparse marker pixels carrying their own id"""
+    if pipe.endswith("_single"):
+        return 0
+    return r * w + c + 1 if (r + 2 * c) % 7 == 0 else 0
+
+
 def run_semseg(cfg, ch):
     h, w, pipe, s, via = cfg
     x, seg = coded_pair(h, w)
+    if pipe.endswith(("_dominant", "_single")):
+        import torch
+        seg = torch.tensor([[dominant_label(pipe, r, c, w) for c in range(w)] for r in range(h)]).long()
+    src_x, src_seg = x.clone(), seg.clone()
     ts = build_semseg(pipe, s)
     rng = rng_for(ch)
     try:
@@ -326,10 +341,10 @@ def run_semseg(cfg, ch):
                     return 2
 
                 def getitem_x(self, idx, ctx=None):
-                    return coded_pair(h, w)[0]
+                    return src_x.clone()
 
                 def getitem_semseg(self, idx, ctx=None):
-                    return coded_pair(h, w)[1]
+                    return src_seg.clone()
 
             for t in ts:
                 t.set_rng(rng)
@@ -343,6 +358,17 @@ def run_semseg(cfg, ch):
         return "exception:RuntimeError", repr(e)
     except Exception as e:
         return f"exception:{type(e).__name__}", repr(e)
+    if pipe.endswith(("_dominant", "_single")):
+        # the image is position coded: every output pixel names its source pixel; the mask must show that pixel's label
+        if tuple(x.shape[-2:]) != tuple(seg.shape[-2:]) or tuple(seg.shape) != (min(h, s), min(w, s)):
+            return "output_size_wrong", f"{pipe}: image {tuple(x.shape)} mask {tuple(seg.shape)} for input {h}x{w}, size {s}"
+        for r in range(seg.shape[0]):
+            for c in range(seg.shape[1]):
+                r0, c0 = int(x[0, r, c]) - 1, int(x[1, r, c]) - 1
+                if int(seg[r, c]) != dominant_label(pipe, r0, c0, w):
+                    return "image_and_mask_geometry_differ", (f"at ({r},{c}) the image shows source pixel ({r0},{c0}) whose label is "
+                                                               f"{dominant_label(pipe, r0, c0, w)} but the mask says {int(seg[r, c])}")
+        return None, tuple(seg.shape) + (int(x[0, 0, 0]), int(x[1, 0, 0]))
     err = check_pair(x, seg, w, allow_padding=pipe in ("pad", "full", "full_old"))
     if err:
         return ("window_leaves_the_input" if "outside the input" in err else "image_and_mask_geometry_differ"), err
@@ -526,7 +552,13 @@ def configs(tier):
                     if pipe == "full_old":
                         vias = ("direct",)  # KDSemsegRandomResizeOld is not a registered pair transform of the wrapper
                     for via in vias:
-                        out.append(("semseg", (h, w, pipe, s, via), 2 if pipe.startswith("full") or pipe == "crop_ratio" else None))
+                        if pipe == "crop_ratio_single":
+                            continue  # a constant label map cannot show a geometry difference; kept for larger inputs below
+                        out.append(("semseg", (h, w, pipe, s, via), 2 if pipe.startswith("full") or pipe.startswith("crop_ratio") else None))
+    for (h, w) in ((9, 8), (7, 12)):
+        for s in (2, 4):
+            for via in ("direct", "wrapper"):
+                out.append(("semseg", (h, w, "crop_ratio_dominant", s, via), 2))
     return out
 
 
